@@ -23,9 +23,104 @@ PASSTHROUGH = {"filter", "map", "filter_map", "flat_map", "cloned", "copied", "i
 SEQ_SINK_METHODS = {"push", "push_str", "extend", "combine", "append", "push_back", "push_front", "write_str", "write_fmt", "extend_from_slice", "to_tokens", "insert_str"}
 
 
+HASH_ALIASES = set()
+HASH_FIELDS = set()
+
+
 def is_hash_ty(ty):
     t = ty.replace(" ", "")
-    return bool(re.search(r"\b(HashMap|HashSet)<", t) or t.endswith("HashMap") or t.endswith("HashSet"))
+    if bool(re.search(r"\b(HashMap|HashSet)<", t) or t.endswith("HashMap") or t.endswith("HashSet")):
+        return True
+    head = re.sub(r"<.*", "", t).split("::")[-1].lstrip("&").replace("mut", "")
+    return head in HASH_ALIASES
+
+
+def hash_aliases_and_fields(repo):
+    """Type aliases that name a hash container (transitively) and struct fields of such a type: (alias names, {field name: struct})."""
+    aliases = set()
+    for _ in range(3):
+        for f in IMPL_FILES:
+            for it, _i, _c in repo.items(f):
+                if it["k"] == "TypeAlias":
+                    t = it["ty"].replace(" ", "")
+                    head = re.sub(r"<.*", "", t).split("::")[-1]
+                    if re.search(r"\b(HashMap|HashSet)\b", t) or head in aliases:
+                        aliases.add(it["name"])
+    fields = {}
+    for f in IMPL_FILES:
+        for it, _i, _c in repo.items(f):
+            if it["k"] == "Struct" and isinstance(it.get("fields"), dict):
+                for fd in it["fields"].get("fields", []):
+                    t = (fd.get("ty") or "").replace(" ", "")
+                    heads = set(re.findall(r"[A-Za-z_]\w*", t))
+                    if re.search(r"\b(HashMap|HashSet)\b", t) or heads & aliases:
+                        fields[fd.get("name")] = it["name"]
+    return aliases, fields
+
+
+def r1_fields(chk):
+    """Hash containers held in struct fields (possibly behind a type alias): every read of such a field is classified like a local."""
+    repo = chk.repo
+    aliases, fields = hash_aliases_and_fields(repo)
+    fields = {k: v for k, v in fields.items() if k and not str(k).isdigit()}
+    HASH_ALIASES.clear()
+    HASH_ALIASES.update(aliases)
+    HASH_FIELDS.clear()
+    HASH_FIELDS.update(fields)
+    chk.unit("hash_aliases", len(aliases))
+    chk.unit("hash_fields", len(fields))
+    if not fields:
+        return
+    for f in IMPL_FILES:
+        for fi in repo.fns(f):
+            ords = {}
+            for node, parents in walk_with_parents(fi.body):
+                if node["k"] != "Field" or node["member"] not in fields:
+                    continue
+                i = len(parents) - 1
+                cur = node
+                while i >= 0 and (parents[i]["k"] in ("Ref", "Paren") or (parents[i]["k"] == "Unary" and parents[i]["op"] == "*") or
+                                  (parents[i]["k"] == "MethodCall" and parents[i]["recv"] is cur and parents[i]["method"] in ("clone", "as_ref", "as_mut", "unwrap", "borrow") and not parents[i]["args"])):
+                    cur = parents[i]
+                    i -= 1
+                par = parents[i] if i >= 0 else None
+                base = f"{fi.qual}:.{node['member']}"
+                o = ords.get(base, 0)
+                ords[base] = o + 1
+                key = base + (f"#{o}" if o else "")
+                if par is None or par["k"] in ("Let", "Struct", "Assign", "Closure", "Call", "LetExpr", "Match", "If"):
+                    chk.ok("R1", key, f, node["line"], nontrivial=False)
+                    continue
+                if par["k"] == "For" and par["iter"] is cur:
+                    lvs = [q["name"] for q in walk(par["pat"]) if q["k"] == "PIdent"]
+                    verdicts = loop_body_verdict(par["body"], lvs, set(), repo, chk)
+                    bad = [v for v in verdicts if not v[0]]
+                    # a loop over a hash container whose body can leave the function / loop early or feeds a sequence is order-dependent
+                    chk.expect("R1", key + "/for", not bad, f, node["line"], "hash order of a container held in a struct field reaches an order-sensitive effect: " + "; ".join(b[1] for b in bad), found=[b[1] for b in bad])
+                    continue
+                if par["k"] == "MethodCall" and par["recv"] is cur:
+                    m = par["method"]
+                    if m in POINT:
+                        chk.ok("R1", key + "." + m, f, node["line"], detail="point query/update")
+                        continue
+                    if m in EXPOSING:
+                        j = i - 1
+                        chain, top = [m], par
+                        while j >= 0 and parents[j]["k"] == "MethodCall" and parents[j]["recv"] is top:
+                            top = parents[j]
+                            chain.append(top["method"])
+                            j -= 1
+                        pj = parents[j] if j >= 0 else None
+                        if len(chain) == 1 and pj is not None and pj["k"] == "For" and pj["iter"] is top:
+                            lvs = [q["name"] for q in walk(pj["pat"]) if q["k"] == "PIdent"]
+                            verdicts = loop_body_verdict(pj["body"], lvs, set(), repo, chk)
+                            bad = [v for v in verdicts if not v[0]]
+                            chk.expect("R1", key + "." + m + "/for", not bad, f, node["line"], "hash order reaches an order-sensitive effect: " + "; ".join(b[1] for b in bad), found=[b[1] for b in bad])
+                            continue
+                        v_ = classify_chain(chain, top)
+                        chk.shape("R1", key + "." + ".".join(chain), v_ is True, v_ is False, f, node["line"], what="hash-ordered iterator of a struct field consumed by an order-sensitive operation", found=chain)
+                        continue
+                chk.ok("R1", key, f, node["line"], nontrivial=False)  # not an iteration: order cannot be observed here
 
 
 def hash_ctor(e):
@@ -46,6 +141,18 @@ def containers_of(fi):
     for inp in fi.node["sig"]["inputs"]:
         if not inp.get("self") and is_hash_ty(inp["ty"]):
             out[inp["pat"].get("name", "_")] = (fi.line, "param:" + inp["ty"].replace(" ", ""))
+    def peel_(e):
+        while e is not None and (e["k"] in ("Ref", "Paren", "Try") or (e["k"] == "MethodCall" and e["method"] in ("as_ref", "as_mut", "clone", "unwrap", "iter") and not e["args"])):
+            e = e.get("expr") if e["k"] in ("Ref", "Paren", "Try") else e["recv"]
+        return e
+    for n in walk(fi.body):
+        # a local bound (through Some(..) / refs) from a hash-typed struct field is that container
+        if n["k"] in ("Let", "LetExpr") and HASH_FIELDS:
+            src_ = peel_(n.get("init") if n["k"] == "Let" else n.get("expr"))
+            if src_ is not None and src_["k"] == "Field" and src_["member"] in HASH_FIELDS:
+                for q in walk(n["pat"]):
+                    if q["k"] == "PIdent" and q["name"][:1].islower():
+                        out[q["name"]] = (n["line"], "field:" + src_["member"])
     for n in walk(fi.body):
         if n["k"] == "Let":
             p = n["pat"]
@@ -371,6 +478,7 @@ def r3(chk):
 
 
 def run(chk):
+    chk.guard("R1", lambda: r1_fields(chk))
     chk.guard("R1", lambda: r1(chk))
     chk.guard("R2", lambda: r2(chk))
     chk.guard("R3", lambda: r3(chk))
